@@ -12,14 +12,16 @@
      GSpecSim  for `tlc -simulate`: action KINDS are weighted by construction, arguments
                are drawn through selectors; PlanId > 0 prescribes the kind of each step *)
 EXTENDS DistFramer, Json, SequencesExt
-CONSTANTS Depth, PlanId, BFSKeySets
-VARIABLES hist
-gvars == <<vars, hist>>
+CONSTANTS Depth, PlanId, BFSKeySets,
+          SyncPartialOK  \* FALSE: no frame lacking a peer's series from a Sync writer (hangs on trees without the fix)
+VARIABLES hist,
+          pick   \* simulation only: kind of the next call ("none" between calls)
+gvars == <<vars, hist, pick>>
 
 Rec(a, args) == [a |-> a, args |-> args, res |-> res', cm |-> single']
 Push(a, args) == hist' = Append(hist, Rec(a, args))
 Setup == [a |-> "setup", args |-> [nodes |-> NNodes, lease |-> lease, free |-> HasFree], res |-> "ok", cm |-> single]
-GInit == Init /\ hist = <<Setup>>
+GInit == Init /\ hist = <<Setup>> /\ pick = "none"
 Calls == Len(hist) - 1
 
 \* ---- client calls (recorded)
@@ -28,6 +30,7 @@ GOpen(w, g, keys, s, sy, au) ==
   /\ Push("open", [w |-> w, g |-> g, keys |-> keys, start |-> s, sync |-> sy, auto |-> au])
 GWrite(w, gs, fr, ts) ==
   /\ Quiescent /\ WriteReq(w, gs, fr, ts)
+  /\ (SyncPartialOK \/ ~(wr[w].sync /\ LacksPeer(w, FrameChans(w, gs, fr))))
   /\ Push("write", [w |-> w, chans |-> FrameChans(w, gs, fr), times |-> ts, id |-> nextId,
                     partial |-> LacksPeer(w, FrameChans(w, gs, fr)),
                     dataonly |-> {g \in gs : ~OwnsIdx(wr[w].keys, g)}])
@@ -59,8 +62,8 @@ NoFailedYet == \A k \in 1..Len(hist) : hist[k].res = "ok"
 
 \* ---- bounded-exhaustive generator (small argument sets)
 GNextBFS ==
-  \/ Internal
-  \/ /\ Calls < Depth /\ Quiescent
+  \/ (Internal /\ UNCHANGED pick)
+  \/ /\ Calls < Depth /\ Quiescent /\ UNCHANGED pick
      /\ \/ \E w \in Writers, g \in Node, keys \in BFSKeySets, sy, au \in BOOLEAN :
              /\ ~wr[w].open
              /\ \/ ~(keys \subseteq meta) /\ NoFailedYet /\ GOpen(w, g, keys, 0, sy, au)
@@ -74,9 +77,6 @@ GNextBFS ==
 GSpecBFS == GInit /\ [][GNextBFS]_gvars
 
 \* ---- simulation generator
-Nth(S, i) == SetToSeq(S)[(i % Cardinality(S)) + 1]
-Sel == 0..3
-NT == Cardinality(Time)
 Plans == <<
   \* 1: one session, several commits, reads between, second session
   <<"open", "write", "commit", "iread", "write", "write", "commit", "close", "iread", "open", "write", "commit", "close", "iread">>,
@@ -91,49 +91,52 @@ TimeSets == {ts \in SUBSET Even : ts # {} /\ Cardinality(ts) <= MaxLen}
 SimFrames == (SUBSET Groups) \X BOOLEAN \X TimeSets
 FreeKeys == SUBSET AllChan \ {{}}
 StoredKeys == SUBSET Stored \ {{}}
-GEnd == /\ Calls = Depth /\ Quiescent /\ hist' = Append(hist, [a |-> "end"]) /\ UNCHANGED vars
-\* lf / oc are evaluated once per state (TLC memoises LET definitions)
-GNextSim == GEnd \/ (~Quiescent /\ Internal) \/
-  /\ Calls < Depth /\ Quiescent
-  /\ LET lf == [w \in Writers |-> IF wr[w].open THEN {f \in SimFrames : WriteGuard(w, f[1], f[2], f[3])} ELSE {}]
-         wws == {w \in OpenW : lf[w] # {}}
-         oc == {ks \in FreeKeys : ks \cap OpenKeys = {} /\ UsefulStarts(ks) # {}}
-         can == [kd \in {"open", "write", "commit", "close", "iread"} |->
-                   CASE kd = "open" -> ClosedW # {} /\ oc # {}
-                     [] kd = "write" -> wws # {}
-                     [] kd = "commit" -> \E w \in OpenW : ~wr[w].auto /\ wr[w].seq < MaxSeq
-                     [] kd = "close" -> OpenW # {}
-                     [] OTHER -> TRUE]
-         planned == IF PlanId = 0 \/ Calls >= Len(Plans[PlanId]) THEN "any"
-                    ELSE IF can[Plans[PlanId][Calls + 1]] THEN Plans[PlanId][Calls + 1] ELSE "any"
-     IN \E k \in 1..12, i \in Sel, j \in Sel, m \in Sel :
-       \/ /\ k \in {1, 2} /\ ClosedW # {} /\ planned \in {"any", "open"} /\ oc # {}
-          /\ LET ks == Nth(oc, m + 4 * i + 16 * j + 64 * (k - 1))
-                 g == (j % NNodes) + 1
-                 s == Nth(UsefulStarts(ks), i + j + m)
-                 bad == k = 2 /\ m = 3 /\ i >= 2        \* 1 in 16: a key that does not exist
-             IN GOpen(Nth(ClosedW, i), g, IF bad THEN ks \cup {Unknown} ELSE ks, s, (i + m) % 2 = 0, (j + m) % 3 = 0)
-       \/ /\ k \in {3, 4, 5, 6} /\ planned \in {"any", "write"} /\ wws # {}
-          /\ LET w == Nth(wws, i)
-                 \* half of the time prefer frames that carry every group the writer owns
-                 full == {f \in lf[w] : f[1] = GroupsIn(wr[w].keys \cap Stored)}
-                 pool == IF k >= 5 /\ full # {} THEN full ELSE lf[w]
-                 f == Nth(pool, m + 4 * j + 16 * (k % 2))
-             IN GWrite(w, f[1], f[2], f[3])
-       \/ /\ k \in {7, 8} /\ j = 0 /\ planned \in {"any", "commit"} /\ \E w \in OpenW : ~wr[w].auto
-          /\ LET ws == {w \in OpenW : ~wr[w].auto} w == Nth(ws, i)
-             IN (wr[w].gbuf # {} \/ m = 0) /\ GCommit(w)
-       \/ /\ k = 9 /\ j = 0 /\ m < 2 /\ OpenW # {} /\ planned \in {"any", "close"}
-          /\ LET w == Nth(OpenW, i) IN (wr[w].seq > 0 \/ lf[w] = {}) /\ GClose(w)
-       \/ /\ k \in {10, 11} /\ planned \in {"any", "iread"} /\ (AnyData \/ m = 0) /\ (~LastIs("iread") \/ planned = "iread")
-          /\ LET g == (i % NNodes) + 1
-                 ks0 == Nth(StoredKeys, j + 4 * m + 16 * i)
-                 \* 1 in 8 each: an unknown key / the free channel among the keys
-                 ks == IF k = 11 /\ m = 1 THEN ks0 \cup {Unknown}
-                       ELSE IF k = 11 /\ m = 2 /\ HasFree THEN ks0 \cup {"F"} ELSE ks0
-                 a == IF k = 10 THEN 0 ELSE (i + 2 * j) % NT
-                 b == IF k = 10 THEN 2 * T + 1 ELSE a + 1 + ((m + 3 * j) % (NT - a))
-             IN b \in Time /\ GIRead(g, ks, a, b)
+GEnd == /\ Calls = Depth /\ Quiescent /\ pick = "none" /\ hist' = Append(hist, [a |-> "end"]) /\ UNCHANGED <<vars, pick>>
+\* Simulation picks successors uniformly, so a step is split in two: Choose fixes the KIND
+\* of the next call (kinds weighted by how many k map to them, or prescribed by the plan),
+\* Do then draws the arguments uniformly among ALL legal arguments of that kind.
+KindOf(k) == CASE k \in 1..4 -> "open" [] k \in 5..7 -> "write" [] k \in 8..10 -> "writefull"
+               [] k \in 11..16 -> "commit" [] k \in 17..19 -> "close" [] k \in 20..22 -> "iread"
+               [] k = 23 -> "openbad" [] OTHER -> "ireadbad"
+\* at most two writes in a row: keeps commits, closes and reads frequent
+TwoWrites == Len(hist) >= 3 /\ hist[Len(hist)].a = "write" /\ hist[Len(hist) - 1].a = "write"
+CanWrite(full) == \E w \in OpenW : \E f \in SimFrames :
+                     /\ (full => f[1] = GroupsIn(wr[w].keys \cap Stored)) /\ WriteGuard(w, f[1], f[2], f[3])
+                     /\ (SyncPartialOK \/ ~(wr[w].sync /\ LacksPeer(w, FrameChans(w, f[1], f[2]))))
+CanOpen == ClosedW # {} /\ \E ks \in FreeKeys : ks \cap OpenKeys = {} /\ UsefulStarts(ks) # {}
+Can(kd) == CASE kd \in {"open", "openbad"} -> CanOpen
+             [] kd = "write" -> ~TwoWrites /\ CanWrite(FALSE)
+             [] kd = "writefull" -> ~TwoWrites /\ CanWrite(TRUE)
+             [] kd = "commit" -> \E w \in OpenW : ~wr[w].auto /\ wr[w].nc < MaxCommits
+             [] kd = "close" -> \E w \in OpenW : wr[w].seq > 0 \/ ~CanWrite(FALSE)
+             [] kd = "iread" -> AnyData
+             [] OTHER -> TRUE
+PlanKind == IF PlanId = 0 \/ Calls >= Len(Plans[PlanId]) THEN "any"
+            ELSE IF Can(Plans[PlanId][Calls + 1]) THEN Plans[PlanId][Calls + 1] ELSE "any"
+Choose == /\ pick = "none" /\ Quiescent /\ Calls < Depth
+          /\ LET pk == PlanKind
+             IN \E k \in 1..24 : /\ (pk = "any" \/ pk = KindOf(k) \/ (pk = "write" /\ KindOf(k) = "writefull"))
+                                  /\ Can(KindOf(k)) /\ pick' = KindOf(k)
+          /\ UNCHANGED <<vars, hist>>
+Do == /\ pick # "none" /\ pick' = "none"
+      /\ CASE pick \in {"open", "openbad"} ->
+             \* (sync, auto): 2x (T,F), 2x (F,F), (T,T), (F,T)
+             \E g \in Node, ks \in FreeKeys, x \in 1..6 : \E s \in UsefulStarts(ks) :
+                GOpen(CHOOSE y \in ClosedW : TRUE, g, IF pick = "openbad" THEN ks \cup {Unknown} ELSE ks, s,
+                      x \in {1, 2, 5}, x \in {5, 6})
+           [] pick \in {"write", "writefull"} ->
+             \E w \in OpenW, f \in SimFrames :
+                /\ (pick = "writefull" => f[1] = GroupsIn(wr[w].keys \cap Stored))
+                /\ (f[1] = {} => f[3] = {0})        \* frames with the free channel only: one shape is enough
+                /\ GWrite(w, f[1], f[2], f[3])
+           [] pick = "commit" -> \E w \in OpenW : GCommit(w)
+           [] pick = "close" -> \E w \in OpenW : (wr[w].seq > 0 \/ ~CanWrite(FALSE)) /\ GClose(w)
+           [] pick = "iread" ->
+             \E g \in Node, ks \in StoredKeys, a \in Time, b \in Time : a < b /\ GIRead(g, ks, a, b)
+           [] OTHER ->
+             \E g \in Node, ks \in StoredKeys, x \in (IF HasFree THEN {Unknown, "F"} ELSE {Unknown}) :
+                GIRead(g, ks \cup {x}, 0, 2 * T + 1)
+GNextSim == GEnd \/ (~Quiescent /\ Internal /\ UNCHANGED pick) \/ Choose \/ Do
 GSpecSim == GInit /\ [][GNextSim]_gvars
 
 Emit == ~(Calls = Depth /\ Quiescent) \/ PrintT(<<"HIST", ToJson(hist)>>)
